@@ -81,7 +81,7 @@ class ZeepSide(object):
         d = {}
         for (dcid, f), x in zip(X.declaring(desc, v[1]), v[2]):
             T = classes[dcid]._type_info[f['name']]
-            key = '_value_1' if f['kind'] == 'data' else f['name']
+            key = '_value_1' if f['kind'] == 'data' else X.wname(f)
             d[key] = self.field_to_zeep(desc, classes, f, T, x)
         return d
 
@@ -125,7 +125,7 @@ class ZeepSide(object):
         vals = []
         for dcid, f in X.declaring(desc, ty[1]):
             T2 = classes[dcid]._type_info[f['name']]
-            key = '_value_1' if f['kind'] == 'data' else f['name']
+            key = '_value_1' if f['kind'] == 'data' else X.wname(f)
             vals.append(self.field_from_zeep(desc, classes, f, T2, o.get(key)))
         return ('obj', ty[1], vals)
 
